@@ -295,6 +295,33 @@ class Model:
                 new_curr = None
             elif isinstance(inner, ast.Call) and peek is None and self._moves_cursor(inner):
                 new_curr = None
+            # deferred debts: `r` bound from a callee that un-reads its caller's match only when it returns a falsy value
+            dname = None
+            dfalsy = False
+            if isinstance(inner, ast.Name):
+                dname, dfalsy = inner.id, lab is False
+            elif isinstance(inner, ast.Compare) and len(inner.ops) == 1 and isinstance(inner.left, ast.Name) and isinstance(inner.comparators[0], ast.Constant) and inner.comparators[0].value is None:
+                if isinstance(inner.ops[0], ast.Is):
+                    dname, dfalsy = inner.left.id, lab is True
+                elif isinstance(inner.ops[0], ast.IsNot):
+                    dname, dfalsy = inner.left.id, lab is False
+            if dname is not None and lab is not None:
+                sv_ = dict(saved)
+                if "!" + dname in sv_:
+                    dk_ = sv_.pop("!" + dname)
+                    saved = frozenset(sv_.items())
+                    if dfalsy:
+                        count = max(0, count - dk_)
+                        if count < 1:
+                            new_pv = set()
+            if isinstance(inner, ast.Call):
+                dk, dfo = self.call_debt(inner)
+                if dk and not (lab is True and dfo):
+                    # a callee that un-reads what its caller matched (only when it returns a falsy value if dfo)
+                    count = max(0, count - dk)
+                    gain = 0
+                    new_curr = None
+                    new_pv = set() if count < 1 else new_pv
             return (min(2, count + gain), frozenset(new_pv), frozenset(new_fv), new_curr, saved)
         if n.kind in ("stmt", "with", "for"):
             st = n.ast
@@ -311,8 +338,21 @@ class Model:
             gain, reset = 0, False
             reset_to = 0
             moved = False
+            refund: set[tuple[str, int]] = set()
             for c in _top_level_calls(st):
                 cn = call_name(c) or ""
+                dk, dfo = self.call_debt(c)
+                if dk:
+                    # the callee may un-read up to dk tokens its caller consumed. If it only does so when it returns a falsy
+                    # value and the result is bound to a local, the debt is deferred to the edge on which that local is
+                    # found falsy (state component saved["!name"] = dk); otherwise it is charged here.
+                    tgs_ = (st.targets if isinstance(st, ast.Assign) else [st.target]) if isinstance(st, (ast.Assign, ast.AnnAssign)) else []
+                    if dfo and len(tgs_) == 1 and isinstance(tgs_[0], ast.Name) and st.value is c:
+                        refund.add((tgs_[0].id, dk))
+                    else:
+                        gain -= dk
+                    moved = True
+                    continue
                 if curr is not None and self._first_match_gain(c, curr) and gain == 0:
                     gain += 1  # the callee starts by matching the token we have just peeked
                     continue
@@ -404,11 +444,100 @@ class Model:
             new_saved = saved
             for tg, val in tv:
                 if isinstance(tg, ast.Name) and val is not None and norm(val) == "self._index":
-                    new_saved = frozenset({(k, v_) for k, v_ in new_saved if k != tg.id} | {(tg.id, count2)})
+                    new_saved = frozenset({(k, v_) for k, v_ in new_saved if k not in (tg.id, "!" + tg.id)} | {(tg.id, count2)})
                 elif isinstance(tg, ast.Name):
-                    new_saved = frozenset((k, v_) for k, v_ in new_saved if k != tg.id)
+                    new_saved = frozenset((k, v_) for k, v_ in new_saved if k not in (tg.id, "!" + tg.id))
+            if refund:
+                new_saved = frozenset(set(new_saved) | {("!" + nm_, dk_) for nm_, dk_ in refund})
             return (count2, frozenset(new_pv), frozenset(new_fv), new_curr, new_saved)
         return state
+
+    # ---- net-negative callees (un-consume the token their caller matched) -------------------------
+    def debts(self) -> dict[str, tuple[int, bool]]:
+        """name -> (k, falsy_only): some definition of `name` moves the cursor back by k more tokens than it has consumed
+        since its own entry (it un-reads the keyword its caller matched before dispatching to it); falsy_only = every
+        return reachable after such a move returns None / a falsy constant"""
+        d = self.__dict__.get("_debts")
+        if d is not None:
+            return d
+        out: dict[str, tuple[int, bool]] = {}
+        for name, defs in self.defs.items():
+            for c, md in defs:
+                calls = [x for x in ast.walk(md) if isinstance(x, ast.Call) and call_name(x) in ("self._retreat", "self._advance") and x.args]
+                rel = []
+                for call in calls:
+                    a = call.args[0]
+                    k = None
+                    if call_name(call) == "self._retreat" and isinstance(a, ast.BinOp) and isinstance(a.op, ast.Sub) and norm(a.left) == "self._index" and isinstance(a.right, ast.Constant):
+                        k = a.right.value
+                    elif call_name(call) == "self._advance" and isinstance(a, ast.UnaryOp) and isinstance(a.op, ast.USub) and isinstance(a.operand, ast.Constant):
+                        k = a.operand.value
+                    if isinstance(k, int) and k > 0:
+                        rel.append((call, k))
+                if not rel:
+                    continue
+                g = self.cfg(md)
+                IN, _ = self.flow(g, g.entry, {})
+                for call, k in rel:
+                    nodes = g.nodes_for(call)
+                    have = min((IN[x][0] for x in nodes if x in IN), default=0)
+                    if have >= k or (f"{c.key}.{name}", norm(call)) in REVIEWED_MOVES:
+                        continue  # reviewed: dominated by >= k tokens consumed inside the method
+                    # returns reachable after the move: falsy, or reached after re-consuming at least what was un-read
+                    falsy_only = True
+                    for start in nodes:
+                        IN2, _b = self.flow(g, start, {})
+                        for n in IN2:
+                            if n.kind == "stmt" and isinstance(n.ast, ast.Return) and n not in nodes:
+                                v = n.ast.value
+                                if v is None or (isinstance(v, ast.Constant) and not v.value):
+                                    continue
+                                if IN2[n][0] < k - have:
+                                    falsy_only = False
+                    old = out.get(name, (0, True))
+                    out[name] = (max(old[0], k - have), old[1] and falsy_only)
+        self._debts = out
+        return out
+
+    def table_methods(self, table: str) -> set[str]:
+        cache = self.__dict__.setdefault("_tm_cache", {})
+        if table not in cache:
+            names: set[str] = set()
+            for c in self.classes:
+                lit = c.body_assigns().get(table)
+                if lit is None:
+                    continue
+                for x in ast.walk(lit):
+                    if isinstance(x, ast.Call) and (call_name(x) or "").startswith("self."):
+                        names.add((call_name(x) or "")[5:])
+                    elif isinstance(x, ast.Attribute) and x.attr.startswith("_parse") and not isinstance(x.value, ast.Name):
+                        names.add(x.attr)
+                    elif isinstance(x, ast.Attribute) and x.attr.startswith("_parse") and isinstance(x.value, ast.Name) and x.value.id != "self":
+                        names.add(x.attr)  # Parser._parse_x method reference
+            cache[table] = names
+        return cache[table]
+
+    def call_debt(self, c: ast.Call) -> tuple[int, bool]:
+        """(k, falsy_only) for a call that may move the cursor back by k tokens beyond its own entry position"""
+        if self.__dict__.get("_debts") is None:
+            return (0, True)  # while the summaries themselves are being computed
+        d = self.debts()
+        cn = call_name(c) or ""
+        if cn.startswith("self.") and cn.count(".") == 1:
+            return d.get(cn[5:], (0, True))
+        table = None
+        if isinstance(c.func, ast.Subscript) and is_self_attr(c.func.value):
+            table = c.func.value.attr
+        elif isinstance(c.func, ast.Name):
+            table = self.__dict__.get("_call_tables", {}).get(id(c))
+        if table is None:
+            return (0, True)
+        k, fo = 0, True
+        for nm in self.table_methods(table):
+            if nm in d:
+                k = max(k, d[nm][0])
+                fo = fo and d[nm][1]
+        return (k, fo)
 
     # ---- helpers for peek / first-match / table dispatch ------------------------------------------
     strict_errors = False
@@ -587,8 +716,16 @@ class Model:
         else:
             curr = a[3] if a[3] == b[3] else None
         sa, sb = dict(a[4]), dict(b[4])
-        saved = frozenset((k, min(sa[k], sb[k])) for k in sa.keys() & sb.keys())
+        saved = frozenset((k, min(sa[k], sb[k])) for k in sa.keys() & sb.keys() if not k.startswith("!"))
+        saved |= frozenset((k, max(sa.get(k, 0), sb.get(k, 0))) for k in sa.keys() | sb.keys() if k.startswith("!"))
         return (min(a[0], b[0]), a[1] & b[1], a[2] & b[2], curr, saved)
+
+    @staticmethod
+    def settled(state: tuple, returned: ast.AST | None = None) -> int:
+        """consumption count with every still-deferred debt charged (except the one of the local being returned:
+        a truthy result of that local means its callee did not un-read anything)"""
+        debts = [v for k, v in state[4] if k.startswith("!") and not (isinstance(returned, ast.Name) and k == "!" + returned.id)]
+        return max(0, state[0] - max(debts, default=0))
 
     def edge_gain(self, n: Node, lab, locals_: dict[str, bool]) -> tuple[int, bool]:
         o = self.transfer(n, lab, (0, frozenset(k for k, v in locals_.items() if v), frozenset(), None, frozenset()))
@@ -611,6 +748,15 @@ class Model:
             for st_ in ast.walk(fn_node):
                 if isinstance(st_, ast.Assign) and isinstance(st_.value, ast.Call) and isinstance(st_.value.func, ast.Name) and st_.value.func.id in tabs:
                     lt[id(st_)] = tabs[st_.value.func.id]
+            tabs2 = dict(tabs)
+            for st_ in ast.walk(fn_node):
+                if isinstance(st_, ast.Assign) and len(st_.targets) == 1 and isinstance(st_.targets[0], ast.Name) and isinstance(st_.value, ast.Call) \
+                        and isinstance(st_.value.func, ast.Attribute) and st_.value.func.attr == "get" and is_self_attr(st_.value.func.value):
+                    tabs2[st_.targets[0].id] = st_.value.func.value.attr
+            ct = self.__dict__.setdefault("_call_tables", {})
+            for c_ in ast.walk(fn_node):
+                if isinstance(c_, ast.Call) and isinstance(c_.func, ast.Name) and c_.func.id in tabs2 and c_.args and isinstance(c_.args[0], ast.Name) and c_.args[0].id == "self":
+                    ct[id(c_)] = tabs2[c_.func.id]
         work = [start]
         guard = 0
         while work:
@@ -670,10 +816,16 @@ class Model:
                 all_ok = True
                 for st_ in edge_states:
                     count, pv, fv, _curr, _saved = st_
+                    count = self.settled(st_, v)
+                    # a call in the returned expression that can un-read the caller's match while returning a truthy value
+                    for c_ in _top_level_calls(n.ast):
+                        dk_, dfo_ = self.call_debt(c_)
+                        if dk_ and not dfo_:
+                            count = max(0, count - dk_)
                     if count >= 1:
                         continue
                     post = self.transfer(n, None, st_, falsy)
-                    if post is not None and post[0] >= 1:
+                    if post is not None and self.settled(post, v) >= 1 and count == st_[0]:
                         continue  # the return expression itself consumes (peeked token matched by the callee)
                     if isinstance(v, ast.Name) and v.id in fv:
                         continue  # known falsy on this path
@@ -740,6 +892,10 @@ def _model(ctx: Ctx) -> Model:
     if m is None:
         m = Model(ctx)
         m.solve()
+        # second pass with the net-negative summaries active (callees that un-read their caller's match)
+        m.debts()
+        if m._debts:
+            m.solve()
         ctx.__dict__["_c05_model"] = m
     return m
 
@@ -851,7 +1007,7 @@ def rule_a(ctx: Ctx) -> None:
             IN, back = model.flow(g, head, locs, stop_at=head)
             natural = {id(a) for a, h in g.back_edges if h is head}
             back = [(n, lab, s) for n, lab, s in back if id(n) in natural]
-            bad = [(n, lab, s) for n, lab, s in back if s[0] < 1]
+            bad = [(n, lab, s) for n, lab, s in back if Model.settled(s) < 1]
             if not bad:
                 ctx.ok(inst, {"loop": test_txt, "in": where, "witness": f"all {len(back)} back edges reached with >= 1 token consumed"})
                 continue
